@@ -379,4 +379,595 @@ example : (["1", "1:2-3", "1-", "01:1", "1:", ":1", "x:1", "1:2:"].map fun s => 
     ∧ (["", "a b", "4294967296:1", "1_2"].map fun s => (Version.parse s.toList).isSome) = [false, false, false, false] := by
   decide +kernel
 
+
+/-- `Vec::remove` / indexing: exactly the indices below the length are accepted -/
+theorem C14_relations_remove_total_iff (rs : Relations) (i : Nat) :
+    (remove rs i).isOk = true ↔ i < rs.length := by
+  unfold remove; split <;> simp_all [Outcome.isOk]
+
+theorem C14_relations_index_total_iff (rs : Relations) (i : Nat) (f : List Lossy.Relation → List Lossy.Relation) :
+    ((index rs i).isOk = true ↔ i < rs.length) ∧ ((indexMut rs i f).isOk = true ↔ i < rs.length) := by
+  unfold index indexMut
+  by_cases h : i < rs.length
+  · simp [h, Outcome.isOk]
+  · have : rs[i]? = none := List.getElem?_eq_none (by omega)
+    simp [h, this, Outcome.isOk]
+
+/-! ## (c) composition: values assembled from valid components are in the domain of C14 -/
+
+theorem splitColon_eq : ∀ {t e b : Str}, splitColon t = some (e, b) → t = e ++ ':' :: b := by
+  intro t
+  induction t with
+  | nil => intro e b h; simp [splitColon] at h
+  | cons c cs ih =>
+    intro e b h
+    simp only [splitColon] at h
+    split at h
+    · rename_i hc
+      simp only [Option.some.injEq, Prod.mk.injEq] at h
+      obtain ⟨rfl, rfl⟩ := h
+      simp [hc]
+    · split at h
+      · rename_i a b' hs
+        simp only [Option.some.injEq, Prod.mk.injEq] at h
+        obtain ⟨rfl, rfl⟩ := h
+        simp [ih hs]
+      · simp at h
+
+/-- the text read as `[epoch:]body` is the text -/
+theorem versionAOfText_str (t : Str) : (versionAOfText t).str = t := by
+  unfold versionAOfText
+  cases h : splitColon t with
+  | none => simp [VersionA.str]
+  | some p =>
+    obtain ⟨e, b⟩ := p
+    simp [VersionA.str, splitColon_eq h]
+
+/-- a valid version text is accepted by the builder, and its value is a valid version -/
+theorem validVersionText_parse (t : Str) (h : validVersionText t = true) :
+    Version.parse t = some (versionAOfText t).value ∧ validVersion (versionAOfText t).value = true := by
+  have := Rel.Version.parse_written (versionAOfText t) h
+  rw [versionAOfText_str] at this
+  exact ⟨this, Rel.Wrap.value_valid _ h⟩
+
+/-- the builder holds a valid value so far -/
+def validB (b : RelationBuilder) : Bool := validR b.build
+
+theorem apply_valid (b : RelationBuilder) (c : Call) (hb : validB b = true) (hc : validCall c = true) :
+    ∃ b', c.apply b = .ok b' ∧ validB b' = true := by
+  simp only [validB, validR, RelationBuilder.build, Bool.and_eq_true] at hb
+  obtain ⟨⟨⟨⟨h1, h2⟩, h3⟩, h4⟩, h5⟩ := hb
+  cases c with
+  | archqual a =>
+    refine ⟨_, rfl, ?_⟩
+    simp only [validB, validR, RelationBuilder.build, RelationBuilder.setArchqual, Bool.and_eq_true]
+    exact ⟨⟨⟨⟨h1, hc⟩, h3⟩, h4⟩, h5⟩
+  | architectures as =>
+    refine ⟨_, rfl, ?_⟩
+    simp only [validB, validR, RelationBuilder.build, RelationBuilder.setArchitectures, Bool.and_eq_true,
+      List.map_id']
+    exact ⟨⟨⟨⟨h1, h2⟩, h3⟩, hc⟩, h5⟩
+  | version k t =>
+    obtain ⟨hp, hv⟩ := validVersionText_parse t hc
+    refine ⟨{ b with version := some (k, (versionAOfText t).value) }, ?_, ?_⟩
+    · simp only [Call.apply, RelationBuilder.setVersion, hp]
+    · simp only [validB, validR, RelationBuilder.build, Bool.and_eq_true]
+      exact ⟨⟨⟨⟨h1, h2⟩, hv⟩, h4⟩, h5⟩
+  | profile p =>
+    refine ⟨_, rfl, ?_⟩
+    simp only [validB, validR, RelationBuilder.build, RelationBuilder.addProfile, Bool.and_eq_true,
+      List.all_append, List.all_cons, List.all_nil, Bool.and_true]
+    exact ⟨⟨⟨⟨h1, h2⟩, h3⟩, h4⟩, h5, hc⟩
+
+theorem run_valid (cs : List Call) : ∀ b : RelationBuilder, validB b = true → cs.all validCall = true →
+    ∃ b', run b cs = .ok b' ∧ validB b' = true := by
+  induction cs with
+  | nil => intro b hb _; exact ⟨b, rfl, hb⟩
+  | cons c cs ih =>
+    intro b hb hcs
+    simp only [List.all_cons, Bool.and_eq_true] at hcs
+    obtain ⟨b1, h1, hv1⟩ := apply_valid b c hb hcs.1
+    obtain ⟨b2, h2, hv2⟩ := ih b1 hv1 hcs.2
+    exact ⟨b2, by simp [run, h1, Outcome.bind, h2], hv2⟩
+
+/-- **any chain of setter calls with a valid name and valid arguments** (in any order, setters repeated
+    or not) does not panic and builds a value of the domain of C14 -/
+theorem C14_assembled_valid_script (name : Str) (cs : List Call) (h : validCalls name cs = true) :
+    ∃ r, runBuild name cs = .ok r ∧ ValidR r := by
+  simp only [validCalls, Bool.and_eq_true] at h
+  have h0 : validB (relationBuild name) = true := by
+    simp [validB, validR, RelationBuilder.build, relationBuild, RelationBuilder.new, h.1]
+  obtain ⟨b, hr, hv⟩ := run_valid cs _ h0 h.2
+  exact ⟨b.build, by simp [runBuild, hr, Outcome.map], hv⟩
+
+example : validCalls "pkg".toList
+    [.profile [.Enabled ['x']], .archqual ['?'], .architectures ["amd64".toList, "!i386".toList], .profile [],
+      .version .GreaterThanEqual "01:2:3-4".toList, .archqual "any".toList] = false
+  ∧ validCalls "pkg".toList
+    [.profile [.Enabled ['x']], .archqual ['q'], .architectures ["amd64".toList, "!i386".toList], .profile [],
+      .version .GreaterThanEqual "01:2:3-4".toList, .archqual "any".toList] = true := by decide +kernel
+
+theorem validCalls_of_components (c : Components) (h : validComponents c = true) :
+    validCalls c.name c.calls = true := by
+  cases c with
+  | mk name aq ver archs profs =>
+    simp only [validComponents, Bool.and_eq_true] at h
+    obtain ⟨⟨⟨⟨h1, h2⟩, h3⟩, h4⟩, h5⟩ := h
+    have h5' : (profs.map Call.profile).all validCall = true := by
+      rw [List.all_map]; exact h5
+    rcases ver with _ | ⟨op, t⟩ <;> cases aq <;> cases archs <;>
+      simp_all [validCalls, Components.calls, validCall, List.all_append]
+
+/-- **valid components assemble**: the builder does not panic and the value is in `ValidR` -/
+theorem C14_assembled_valid (c : Components) (h : validComponents c = true) :
+    ∃ r, assemble c = .ok r ∧ ValidR r :=
+  C14_assembled_valid_script _ _ (validCalls_of_components c h)
+
+example : validComponents exComponents = true ∧ validComponentsS exComponents = true := by decide +kernel
+
+/-- the fields of the assembled value are the components (the version: the parse of the text) -/
+theorem assemble_fields (c : Components) (r : Lossy.Relation) (h : assemble c = .ok r) :
+    r.name = c.name ∧ r.archqual = c.archqual ∧ r.architectures = c.architectures ∧ r.profiles = c.profiles
+      ∧ (match c.version with
+          | none => r.version = none
+          | some (op, t) => ∃ v, Version.parse t = some v ∧ r.version = some (op, v)) := by
+  rw [C14_builder_record] at h
+  cases c with
+  | mk name aq ver archs profs =>
+    rcases ver with _ | ⟨op, t⟩
+    · simp only [Outcome.ok.injEq] at h
+      subst h; simp
+    · simp only at h
+      cases hp : Version.parse t with
+      | none => simp [hp] at h
+      | some v =>
+        simp only [hp, Outcome.ok.injEq] at h
+        subst h; simp [hp]
+
+theorem splitColon_none {t : Str} (h : ':' ∉ t) : splitColon t = none := by
+  induction t with
+  | nil => rfl
+  | cons c cs ih =>
+    simp only [List.mem_cons, not_or] at h
+    simp [splitColon, Ne.symm h.1, ih h.2]
+
+theorem splitColon_append {d rest : Str} (h : ':' ∉ d) : splitColon (d ++ ':' :: rest) = some (d, rest) := by
+  induction d with
+  | nil => simp [splitColon]
+  | cons c cs ih =>
+    simp only [List.mem_cons, not_or] at h
+    simp [splitColon, Ne.symm h.1, ih h.2]
+
+/-- conversely, a text the builder accepts into a VALID version is a valid version text -/
+theorem validVersionText_of_parse (t : Str) (v : Version) (hp : Version.parse t = some v)
+    (hv : validVersion v = true) : validVersionText t = true := by
+  obtain ⟨hok, hval⟩ := (validVersion_iff v).1 hv
+  obtain ⟨hf, hm, he⟩ := (VersionA.ok_iff _).1 hok
+  unfold Version.parse at hp
+  cases hea : Version.epochAlt t with
+  | none =>
+    rw [hea] at hp
+    cases hm' : matchUpstreamRev t with
+    | none => simp [hm'] at hp
+    | some p =>
+      obtain ⟨u, r⟩ := p
+      simp only [hm', Option.some.injEq] at hp
+      subst hp
+      have hbody : (versionAOf ⟨none, u, r⟩).first = t := by
+        have hb := matchUpstreamRev_display hm'
+        simp only [versionAOf, VersionA.first, Option.map_none]
+        cases r <;> exact hb
+      rw [hbody] at hf
+      have hnc : ':' ∉ t := by
+        intro hc
+        have := ((isIdent_iff _).1 hf).2 ':' hc
+        exact absurd this (by decide)
+      have : versionAOfText t = ⟨none, t⟩ := by simp [versionAOfText, splitColon_none hnc]
+      rw [validVersionText, this, VersionA.ok_iff]
+      exact ⟨hf, by simp [VersionA.more], by simp⟩
+  | some o =>
+    rw [hea] at hp
+    simp only at hp
+    subst hp
+    unfold Version.epochAlt at hea
+    split at hea
+    · rename_i rest hd
+      split at hea
+      · simp at hea
+      · rename_i hemp
+        split at hea
+        · simp at hea
+        · rename_i u r hm'
+          split at hea
+          · rename_i hlt
+            simp only [Option.some.injEq] at hea
+            subst hea
+            have hsplit := @List.takeWhile_append_dropWhile _ isAsciiDigit t
+            rw [hd] at hsplit
+            have hdig : ∀ c ∈ t.takeWhile isAsciiDigit, isAsciiDigit c = true := mem_takeWhile _ _
+            have hnc : ':' ∉ t.takeWhile isAsciiDigit := by
+              intro hc
+              have := hdig ':' hc
+              exact absurd this (by decide)
+            have hT : versionAOfText t = ⟨some (t.takeWhile isAsciiDigit), rest⟩ := by
+              have := splitColon_append (rest := rest) hnc
+              rw [hsplit] at this
+              simp [versionAOfText, this]
+            have hisd : isDigits (t.takeWhile isAsciiDigit) = true := by
+              simp only [isDigits, Bool.and_eq_true, List.all_eq_true]
+              exact ⟨by simpa using hemp, hdig⟩
+            have hbody : (versionAOf ⟨some (digitsVal (t.takeWhile isAsciiDigit)), u, r⟩).more
+                = Text.splitOn ':' rest := by
+              have hb := matchUpstreamRev_display hm'
+              simp only [versionAOf, VersionA.more, Option.map_some]
+              cases r <;> (simp only at hb ⊢; rw [hb])
+            rw [hbody] at hm
+            rw [validVersionText, hT, VersionA.ok_iff]
+            refine ⟨isIdent_of_digits hisd, hm, ?_⟩
+            intro e he'
+            simp only [Option.some.injEq] at he'
+            subst he'
+            exact ⟨hisd, hlt⟩
+          · simp at hea
+    · simp at hea
+
+/-- **exactly the valid components assemble to a value of the domain**: the builder returns a value
+    of `ValidR` if and only if the components are valid (the builder itself rejects nothing but
+    unparsable version texts) -/
+theorem C14_assembled_valid_iff (c : Components) :
+    (∃ r, assemble c = .ok r ∧ ValidR r) ↔ validComponents c = true := by
+  refine ⟨?_, C14_assembled_valid c⟩
+  rintro ⟨r, hr, hv⟩
+  obtain ⟨hn, ha, har, hpr, hve⟩ := assemble_fields c r hr
+  have hv' : validR r = true := hv
+  simp only [validR, Bool.and_eq_true] at hv'
+  obtain ⟨⟨⟨⟨h1, h2⟩, h3⟩, h4⟩, h5⟩ := hv'
+  rw [hn] at h1; rw [ha] at h2; rw [har] at h4; rw [hpr] at h5
+  simp only [validComponents, Bool.and_eq_true]
+  refine ⟨⟨⟨⟨h1, h2⟩, ?_⟩, h4⟩, h5⟩
+  cases hcv : c.version with
+  | none => rfl
+  | some p =>
+    obtain ⟨op, t⟩ := p
+    simp only [hcv] at hve
+    obtain ⟨v, hp, hrv⟩ := hve
+    rw [hrv] at h3
+    exact validVersionText_of_parse t v hp h3
+
+/-- **a value assembled from valid components round-trips**: it prints to a text that the lossy reader
+    turns back into the same value and that the lossless single-relation reader reads without error,
+    as a relation that prints the same text and whose accessors give back the value; the same holds
+    for the field-level readers (`lossy::Relations::from_str`, tolerant and strict lossless parsers) -/
+theorem C14_assembled_roundtrip (c : Components) (h : validComponents c = true) :
+    ∃ r, assemble c = .ok r
+      ∧ Lossy.readRelation (Lossy.showRelation r) = .ok r
+      ∧ (∃ t, Rel.readRelation (Lossy.showRelation r) = .ok t ∧ t.text = Lossy.showRelation r
+            ∧ Build.toLossy t = .ok r)
+      ∧ Lossy.readRelations (Lossy.showRelations [[r]]) = .ok [[r]]
+      ∧ ∀ allow, accEntries (readRelaxed (Lossy.showRelations [[r]]) allow).1 = some [[r]]
+          ∧ (readRelaxed (Lossy.showRelations [[r]]) allow).2 = [] := by
+  obtain ⟨r, hr, hv⟩ := C14_assembled_valid c h
+  have hvs : ValidRs [[r]] := by
+    have h' : validR r = true := hv
+    simp [ValidRs, validRs, h']
+  refine ⟨r, hr, C14_roundtrip_rel r hv, C14_lossless_reads_same_rel r hv, C14_roundtrip [[r]] hvs, ?_⟩
+  intro allow
+  obtain ⟨h1, h2, _, _⟩ := C14_lossless_reads_same [[r]] hvs allow
+  exact ⟨h2, h1⟩
+
+/-- the strong components give a value of the conversion domain -/
+theorem assembled_validRS (c : Components) (h : validComponentsS c = true) :
+    ∃ r, assemble c = .ok r ∧ ValidRS r := by
+  simp only [validComponentsS, Bool.and_eq_true] at h
+  obtain ⟨r, hr, hv⟩ := C14_assembled_valid c h.1.1
+  refine ⟨r, hr, ?_⟩
+  have h' : validR r = true := hv
+  obtain ⟨_, _, har, _, _⟩ := assemble_fields c r hr
+  simp only [ValidRS, validRS, h', Bool.true_and, har]
+  exact h.1.2
+
+/-- **a value assembled from the components the property lists converts faithfully**: converting it
+    to the lossless form and back returns the original value, the lossless form prints the same text
+    as the lossy one, and it is — tree for tree — what the lossless parser makes of that text -/
+theorem C14_assembled_convert (c : Components) (h : validComponentsS c = true) :
+    ∃ r, assemble c = .ok r
+      ∧ Build.toLossy (Build.toLossless r) = .ok r
+      ∧ (Build.toLossless r).text = Lossy.showRelation r
+      ∧ Rel.readRelation (Lossy.showRelation r) = .ok (Build.toLossless r) := by
+  obtain ⟨r, hr, hv⟩ := assembled_validRS c h
+  exact ⟨r, hr, C14_convert_back r hv, C14_convert_text r hv, C14_parse_is_built r hv⟩
+
+/-- … and for all valid components (an empty architecture list `architectures(vec![])` included) the
+    conversion is exact up to `normArchs` (the lossless form has no empty architecture list) -/
+theorem C14_assembled_convert_exact (c : Components) (h : validComponents c = true) :
+    ∃ r, assemble c = .ok r
+      ∧ Build.toLossy (Build.toLossless r) = .ok (normArchs r)
+      ∧ (Build.toLossless r).text = Lossy.showRelation (normArchs r)
+      ∧ Rel.readRelation (Lossy.showRelation (normArchs r)) = .ok (Build.toLossless r)
+      ∧ (Build.toLossy (Build.toLossless r) = .ok r ↔ c.architectures ≠ some []) := by
+  obtain ⟨r, hr, hv⟩ := C14_assembled_valid c h
+  obtain ⟨_, _, har, _, _⟩ := assemble_fields c r hr
+  obtain ⟨_, h2, h3⟩ := C14_convert_exact r hv
+  refine ⟨r, hr, h3, h2, C14_parse_is_built_norm r hv, ?_⟩
+  rw [C14_convert_back_iff r hv, har]
+
+example : ∃ r, assemble exComponents = .ok r ∧ Build.toLossy (Build.toLossless r) = .ok r
+    ∧ (Build.toLossless r).text = "libc6:any (>= 1:2.3~rc1-4) [amd64 !i386] <!nocheck cross> <x>".toList := by
+  obtain ⟨r, hr, h1, h2, _⟩ := C14_assembled_convert exComponents (by decide +kernel)
+  refine ⟨r, hr, h1, ?_⟩
+  rw [h2]
+  have : assemble exComponents = .ok ⟨"libc6".toList, some "any".toList, some ["amd64".toList, "!i386".toList],
+      some (.GreaterThanEqual, ⟨some 1, "2.3~rc1".toList, some ['4']⟩),
+      [[.Disabled "nocheck".toList, .Enabled "cross".toList], [.Enabled ['x']]]⟩ := by decide +kernel
+  rw [this] at hr
+  cases hr
+  decide +kernel
+
+/-- `a []`: valid in the weak sense only — `Relation::build("a").architectures(vec![]).build()` -/
+example : validComponents ⟨['a'], none, none, some [], []⟩ = true
+    ∧ validComponentsS ⟨['a'], none, none, some [], []⟩ = false
+    ∧ assemble ⟨['a'], none, none, some [], []⟩ = .ok exEmptyArchs := by decide +kernel
+
+/-- **components the builder ACCEPTS that are not valid**: `version(Equal, "1:")`, `(…, ":1")` do not panic
+    (the colon goes into the upstream part); the value is outside `ValidR`, the lossy reader still reads
+    the printed text back, but the lossless reader reports errors on it and for `:1` sees a different
+    structure (two relations). `version(Equal, "")` panics. Other components are not checked at all:
+    a name with a space builds, prints `a b` and does not read back. -/
+theorem C14_builder_accepts_invalid :
+    assemble ⟨['a'], none, some (.Equal, "1:".toList), none, []⟩
+        = .ok ⟨['a'], none, none, some (.Equal, ⟨none, "1:".toList, none⟩), []⟩
+      ∧ validVersionText "1:".toList = false
+      ∧ ¬ ValidR ⟨['a'], none, none, some (.Equal, ⟨none, "1:".toList, none⟩), []⟩
+      ∧ Lossy.showRelation ⟨['a'], none, none, some (.Equal, ⟨none, "1:".toList, none⟩), []⟩ = "a (= 1:)".toList
+      ∧ Lossy.readRelation "a (= 1:)".toList = .ok ⟨['a'], none, none, some (.Equal, ⟨none, "1:".toList, none⟩), []⟩
+      ∧ (readRelaxed "a (= 1:)".toList false).2.length = 2
+      ∧ assemble ⟨['a'], none, some (.Equal, ":1".toList), none, []⟩
+        = .ok ⟨['a'], none, none, some (.Equal, ⟨none, ":1".toList, none⟩), []⟩
+      ∧ Lossy.readRelation "a (= :1)".toList = .ok ⟨['a'], none, none, some (.Equal, ⟨none, ":1".toList, none⟩), []⟩
+      ∧ (readRelaxed "a (= :1)".toList false).2.length = 4
+      ∧ ((entries (readRelaxed "a (= :1)".toList false).1).map fun e => (relations e).length) = [2]
+      ∧ assemble ⟨['a'], none, some (.Equal, []), none, []⟩ = .panic versionPanic
+      ∧ assemble ⟨"a b".toList, none, none, none, []⟩ = .ok ⟨"a b".toList, none, none, none, []⟩
+      ∧ Lossy.readRelation (Lossy.showRelation ⟨"a b".toList, none, none, none, []⟩)
+          ≠ .ok ⟨"a b".toList, none, none, none, []⟩ := by
+  decide +kernel
+
+/-! ### `Relations` values collected from assembled relations -/
+
+/-- a relation that was assembled from valid components -/
+def Assembled (r : Lossy.Relation) : Prop := ∃ c, validComponents c = true ∧ assemble c = .ok r
+
+theorem assembled_valid {r : Lossy.Relation} (h : Assembled r) : ValidR r := by
+  obtain ⟨c, hc, hr⟩ := h
+  obtain ⟨r', hr', hv⟩ := C14_assembled_valid c hc
+  rw [hr] at hr'
+  cases hr'
+  exact hv
+
+/-- **`entries.into_iter().collect::<Relations>()` of vectors of assembled relations** prints to a text
+    that the lossy reader turns back into the value without its empty entries — the value itself when
+    no vector is empty — and that the strict lossless parser accepts -/
+theorem C14_assembled_relations_roundtrip (es : List (List Lossy.Relation))
+    (h : ∀ e ∈ es, ∀ r ∈ e, Assembled r) :
+    Lossy.readRelations (Lossy.showRelations (fromIterEntries es)) = .ok (dropEmpty es)
+      ∧ ((∀ e ∈ es, e ≠ []) → Lossy.readRelations (Lossy.showRelations (fromIterEntries es)) = .ok (fromIterEntries es))
+      ∧ (∃ t, readStrict (Lossy.showRelations (fromIterEntries es)) = .ok t) := by
+  have hv : ∀ e ∈ es, ∀ r ∈ e, ValidR r := fun e he r hr => assembled_valid (h e he r hr)
+  have hid : fromIterEntries es = es := by simp [fromIterEntries]
+  rw [hid]
+  refine ⟨C14_roundtrip_exact es hv, fun hne => (C14_roundtrip_iff es hv).2 hne, _, C14_field_parse_tree es hv⟩
+
+/-- **`relations.into_iter().collect::<Relations>()`** (every relation an entry of its own) of assembled
+    relations: prints the relations joined by `, ` and reads back as the same value, by both readers -/
+theorem C14_collected_relations_roundtrip (l : List Lossy.Relation) (h : ∀ r ∈ l, Assembled r) :
+    Lossy.showRelations (fromIterRelations l) = Text.join [',', ' '] (l.map Lossy.showRelation)
+      ∧ Lossy.readRelations (Lossy.showRelations (fromIterRelations l)) = .ok (fromIterRelations l)
+      ∧ ∀ allow, accEntries (readRelaxed (Lossy.showRelations (fromIterRelations l)) allow).1
+          = some (fromIterRelations l) := by
+  have hvs : ValidRs (fromIterRelations l) := by
+    simp only [ValidRs, validRs, fromIterRelations, List.all_map, List.all_eq_true]
+    intro r hr
+    have : validR r = true := assembled_valid (h r hr)
+    simp [this]
+  refine ⟨?_, C14_roundtrip _ hvs, fun allow => (C14_lossless_reads_same _ hvs allow).2.1⟩
+  simp [Lossy.showRelations, fromIterRelations, List.map_map, Function.comp_def, Text.join]
+
+example : Assembled ⟨"libc6".toList, some "any".toList, some ["amd64".toList, "!i386".toList],
+    some (.GreaterThanEqual, ⟨some 1, "2.3~rc1".toList, some ['4']⟩),
+    [[.Disabled "nocheck".toList, .Enabled "cross".toList], [.Enabled ['x']]]⟩ :=
+  ⟨exComponents, by decide +kernel, by decide +kernel⟩
+
+/-! ## (d) the container `Relations` against plain list operations -/
+
+/-- `Relations::new()` / `default()` is the empty list: length 0, empty, prints the empty text;
+    `Relation::new()` / `default()` is the builder's value for the EMPTY name — not a valid component,
+    outside `ValidR`, it prints the empty text -/
+theorem C14_relations_new :
+    relationsNew = ([] : Relations) ∧ relationsDefault = relationsNew ∧ len relationsNew = 0
+      ∧ isEmpty relationsNew = true ∧ iter relationsNew = [] ∧ Lossy.showRelations relationsNew = []
+      ∧ relationDefault = relationNew ∧ relationNew = ⟨[], none, none, none, []⟩
+      ∧ relationNew = (relationBuild []).build ∧ ¬ ValidR relationNew ∧ Lossy.showRelation relationNew = [] := by
+  decide +kernel
+
+/-- `len`, `is_empty`, `iter` -/
+theorem C14_relations_len_empty_iter (rs : Relations) :
+    len rs = rs.length ∧ (isEmpty rs = true ↔ rs = []) ∧ isEmpty rs = (len rs == 0) ∧ iter rs = rs
+      ∧ (iter rs).length = len rs := by
+  refine ⟨rfl, by simp [isEmpty], ?_, by simp [iter], by simp [iter, len]⟩
+  cases rs <;> simp [isEmpty, len]
+
+/-- `remove(i)` is `List.eraseIdx` below the length — one entry fewer, the entries before `i` unchanged,
+    the later ones moved down by one — and a panic from the length on -/
+theorem C14_relations_remove (rs : Relations) (i : Nat) :
+    (i < rs.length → ∃ rs', remove rs i = .ok rs' ∧ rs' = rs.take i ++ rs.drop (i + 1)
+        ∧ len rs' + 1 = len rs ∧ ∀ j, rs'[j]? = if j < i then rs[j]? else rs[j + 1]?)
+      ∧ (rs.length ≤ i → remove rs i = .panic removePanic) := by
+  constructor
+  · intro h
+    refine ⟨rs.eraseIdx i, by simp [remove, h], List.eraseIdx_eq_take_drop_succ rs i, ?_, fun j => List.getElem?_eraseIdx⟩
+    simp only [len, List.length_eraseIdx, h, if_true]; omega
+  · intro h
+    simp [remove, Nat.not_lt.2 h]
+
+/-- `rs[i]` is the `i`-th entry, a panic from the length on -/
+theorem C14_relations_index (rs : Relations) (i : Nat) :
+    (∀ e, index rs i = .ok e ↔ rs[i]? = some e) ∧ (rs.length ≤ i → index rs i = .panic indexPanic) := by
+  constructor
+  · intro e
+    unfold index
+    cases rs[i]? <;> simp
+  · intro h
+    simp [index, List.getElem?_eq_none h]
+
+/-- `&mut rs[i]` used to replace the entry `e` by `f e`: the list with that one entry replaced -/
+theorem C14_relations_index_mut (rs : Relations) (i : Nat) (f : List Lossy.Relation → List Lossy.Relation) :
+    (i < rs.length → ∃ e rs', rs[i]? = some e ∧ indexMut rs i f = .ok rs' ∧ len rs' = len rs
+        ∧ index rs' i = .ok (f e) ∧ ∀ j, j ≠ i → rs'[j]? = rs[j]?)
+      ∧ (rs.length ≤ i → indexMut rs i f = .panic indexPanic) := by
+  constructor
+  · intro h
+    have he : rs[i]? = some rs[i] := List.getElem?_eq_getElem h
+    refine ⟨rs[i], rs.set i (f rs[i]), he, by simp [indexMut, he], by simp [len], ?_, ?_⟩
+    · simp [index, List.getElem?_set, h]
+    · intro j hj
+      simp [List.getElem?_set, Ne.symm hj]
+  · intro h
+    simp [indexMut, List.getElem?_eq_none h]
+
+/-- the two `FromIterator` impls: vectors of relations are the entries as they are; single relations
+    become one entry each -/
+theorem C14_relations_from_iter (es : List (List Lossy.Relation)) (l : List Lossy.Relation) :
+    fromIterEntries es = es ∧ iter (fromIterEntries es) = es
+      ∧ fromIterRelations l = l.map (fun r => [r]) ∧ len (fromIterRelations l) = l.length
+      ∧ (∀ e ∈ fromIterRelations l, e.length = 1)
+      ∧ ∀ i, index (fromIterRelations l) i = (match l[i]? with | some r => .ok [r] | none => .panic indexPanic) := by
+  refine ⟨by simp [fromIterEntries], by simp [fromIterEntries, iter], rfl, by simp [fromIterRelations, len], ?_, ?_⟩
+  · intro e he
+    simp only [fromIterRelations, List.mem_map] at he
+    obtain ⟨r, _, rfl⟩ := he
+    rfl
+  · intro i
+    simp only [index, fromIterRelations, List.getElem?_map]
+    cases l[i]? <;> rfl
+
+/-- a non-empty entry of valid relations -/
+def ValidEntry (e : List Lossy.Relation) : Prop := e ≠ [] ∧ ∀ r ∈ e, ValidR r
+
+theorem validRs_iff (rs : Relations) : ValidRs rs ↔ ∀ e ∈ rs, ValidEntry e := by
+  simp only [ValidRs, validRs, List.all_eq_true, Bool.and_eq_true, Bool.not_eq_true', List.isEmpty_eq_false_iff,
+    ValidEntry, ValidR]
+
+/-- **the container methods keep a value in the domain**: removing an entry, or replacing an entry
+    through `&mut rs[i]` by a non-empty entry of valid relations (assigning one, pushing a valid relation),
+    leaves a value of `ValidRs` — which therefore still round-trips (`C14_roundtrip`) -/
+theorem C14_relations_valid_preserved (rs rs' : Relations) (i : Nat) (h : ValidRs rs) :
+    (remove rs i = .ok rs' → ValidRs rs')
+      ∧ (∀ f, (∀ e, ValidEntry e → ValidEntry (f e)) → indexMut rs i f = .ok rs' → ValidRs rs')
+      ∧ (∀ r, ValidR r → indexMut rs i (fun e => e ++ [r]) = .ok rs' → ValidRs rs') := by
+  rw [validRs_iff] at h
+  have hmut : ∀ f, (∀ e, ValidEntry e → ValidEntry (f e)) → indexMut rs i f = .ok rs' → ValidRs rs' := by
+    intro f hf hm
+    rw [validRs_iff]
+    unfold indexMut at hm
+    cases he : rs[i]? with
+    | none => simp [he] at hm
+    | some e =>
+      simp only [he, Outcome.ok.injEq] at hm
+      subst hm
+      intro x hx
+      rcases List.mem_or_eq_of_mem_set hx with hx | rfl
+      · exact h x hx
+      · exact hf e (h e (List.mem_of_getElem? he))
+  refine ⟨?_, hmut, ?_⟩
+  · intro hr
+    rw [validRs_iff]
+    unfold remove at hr
+    split at hr
+    · simp only [Outcome.ok.injEq] at hr
+      subst hr
+      exact fun e he => h e (List.mem_of_mem_eraseIdx he)
+    · simp at hr
+  · intro r hr
+    apply hmut
+    rintro e ⟨_, he2⟩
+    refine ⟨by simp, ?_⟩
+    intro x hx
+    rcases List.mem_append.1 hx with hx | hx
+    · exact he2 x hx
+    · simp only [List.mem_singleton] at hx; subst hx; exact hr
+
+/-- … so a value of the domain still round-trips after `remove` -/
+theorem C14_relations_remove_roundtrip (rs rs' : Relations) (i : Nat) (h : ValidRs rs)
+    (hr : remove rs i = .ok rs') : Lossy.readRelations (Lossy.showRelations rs') = .ok rs' :=
+  C14_roundtrip rs' ((C14_relations_valid_preserved rs rs' i h).1 hr)
+
+example : ValidRs exRs ∧ (remove exRs 0).isOk = true := by decide +kernel
+
+/-- the example of the module documentation (relations.rs:8-19): parse, `remove(1)`,
+    `relations[0][0].archqual = Some("amd64")`, print -/
+example :
+    (match Lossy.readRelations "python3-dulwich (>= 0.19.0), python3-requests, python3-urllib3 (<< 1.26.0)".toList with
+      | .ok rs =>
+        ((remove rs 1).bind fun rs1 =>
+          indexMut rs1 0 fun e => match e with
+            | r :: t => { r with archqual := some "amd64".toList } :: t
+            | [] => []).map Lossy.showRelations
+      | .error _ => .panic "parse")
+      = .ok "python3-dulwich:amd64 (>= 0.19.0), python3-urllib3 (<< 1.26.0)".toList := by decide +kernel
+
+/-! ## (e) equality
+
+Neither `PartialEq` nor `Ord` is hand-written for the lossy types: `Relation` and `Relations` carry
+`#[derive(Debug, Clone, PartialEq, Eq, Hash)]` (relations.rs:28, 207) and there is no `Ord` / `PartialOrd`
+at all. The derived `==` is structural except inside the version, where `debversion::Version::eq` is
+`cmp(..) == Equal` (it identifies `1.0` and `1.00`, and it can panic, F-C12-1): `C14More.relEqO`.
+On `Relations` the derived `==` is `Vec`'s: equal lengths first, then element by element, stopping at
+the first difference. -/
+
+/-- `<[T] as PartialEq>::eq` with an element comparison that may panic -/
+def sliceEqO {α} (eq : α → α → Outcome Bool) (xs ys : List α) : Outcome Bool :=
+  if xs.length ≠ ys.length then .ok false else go (xs.zip ys)
+where
+  go : List (α × α) → Outcome Bool
+    | [] => .ok true
+    | (a, b) :: r => (eq a b).bind fun t => if t then go r else .ok false
+
+/-- the derived `PartialEq for lossy::Relations` as it runs -/
+def relsEqO (rs ss : Relations) : Outcome Bool := sliceEqO (sliceEqO relEqO) rs ss
+
+theorem sliceEqO_refl {α} (eq : α → α → Outcome Bool) (l : List α) (h : ∀ a ∈ l, eq a a = .ok true) :
+    sliceEqO eq l l = .ok true := by
+  simp only [sliceEqO, ne_eq, not_true_eq_false, if_false]
+  induction l with
+  | nil => rfl
+  | cons a l ih =>
+    simp only [List.zip_cons_cons, sliceEqO.go, h a (by simp), Outcome.bind, if_true]
+    exact ih fun x hx => h x (by simp [hx])
+
+/-- a `Relations` value is `==` to itself (without panic) when the numbers in its versions fit an `i32` -/
+theorem C14_relations_eq_refl (rs : Relations) (h : ∀ e ∈ rs, ∀ r ∈ e, smallVersion r = true) :
+    relsEqO rs rs = .ok true :=
+  sliceEqO_refl _ rs fun e he => sliceEqO_refl _ e fun r hr => relEqO_refl r (h e he r hr)
+
+example : ∀ e ∈ exRs, ∀ r ∈ e, smallVersion r = true := by decide +kernel
+
+/-- the value the builder returns is `==` (Rust's derived `PartialEq`) to the struct literal of its
+    components, and — for valid components — to what the lossy reader makes of its printed text -/
+theorem C14_assembled_eq_refl (c : Components) (h : validComponents c = true) :
+    ∃ r, assemble c = .ok r ∧ (smallVersion r = true →
+      relEqO r r = .ok true
+        ∧ ∃ r', Lossy.readRelation (Lossy.showRelation r) = .ok r' ∧ relEqO r' r = .ok true) := by
+  obtain ⟨r, hr, hv⟩ := C14_assembled_valid c h
+  exact ⟨r, hr, fun hs => ⟨relEqO_refl r hs, r, C14_roundtrip_rel r hv, relEqO_refl r hs⟩⟩
+
+/-- lists of different lengths are unequal without any element comparison (no panic possible), and a
+    difference found first hides a later panic -/
+example :
+    relsEqO [[⟨['a'], none, none, some (.Equal, ⟨none, "2147483648".toList, none⟩), []⟩]] [] = .ok false
+      ∧ (relsEqO [[⟨['a'], none, none, some (.Equal, ⟨none, "2147483648".toList, none⟩), []⟩]]
+            [[⟨['a'], none, none, some (.Equal, ⟨none, "2147483648".toList, none⟩), []⟩]]).isOk = false
+      ∧ relsEqO [[exNoArchs], [⟨['a'], none, none, some (.Equal, ⟨none, "2147483648".toList, none⟩), []⟩]]
+            [[exTwoGroups], [⟨['a'], none, none, some (.Equal, ⟨none, "2147483648".toList, none⟩), []⟩]] = .ok false
+      ∧ relsEqO exRs exRs = .ok true := by decide +kernel
+
 end Deb822Verif.Props.C14Build
